@@ -630,8 +630,17 @@ func (e *Exec) checkFrameAgainst(mods []ast.Expr, entry *State, finals []*State,
 			curEpoch = ep.S
 		}
 		if curEpoch != entryEpoch {
-			e.assert(r.st, e.fnName+"#"+kind+"[heap]", "frame", "false", "a call without a frame havocked the heap but the contract does not say `modifies heap`", where, nil)
-			continue
+			hv := "true"
+			if t, ok := r.st.vars["$hv"]; ok {
+				hv = t.S
+			}
+			if eh, ok := entry.vars["$hv"]; ok && eh.S == hv {
+				hv = "true" // havocked before the entry state already: no path information, be conservative
+			}
+			e.assert(r.st, e.fnName+"#"+kind+"[heap]", "frame", "(not "+hv+")", "a call without a frame havocked the heap but the contract does not say `modifies heap`", where, nil)
+			if hv == "true" {
+				continue
+			}
 		}
 		var keys []string
 		for k := range r.st.vars {
